@@ -12,12 +12,12 @@ CLAIMED = {
     "C01": ("DESIGN.md 5/C01",
             "For every symbolic document within the bounds the in-memory pipeline XMLWriter.save_element -> serialise+parse -> XMLReader (strict and lenient) "
             "returns an equal document up to trimming (tree, order, ids, attributes, dtypes, cardinalities, typed values) without reader warnings, or the writer "
-            "raises because some text is not XML-compatible; the written tree uses only the odML 1.1 vocabulary and carries the format version; the CSV value "
+            "raises because some text is not XML-compatible or a required text is blank; the written tree uses only the odML 1.1 vocabulary and carries the format version; the CSV value "
             "codec inverts itself on 1-3 symbolic values; an element tree written by an independent reference writer of the vocabulary (symbolic child order "
             "and text padding) loads to the document it describes. Path-tree exhaustion under z3.",
             "lxml builder/serialiser/parser behind vlib/stubs/lxmlstub.py and the C module _csv behind vlib/stubs/csvmodel.py (both compared with the real "
             "libraries in the preflight; counterexamples replay through real lxml/csv, odml.save/odml.load, plain and local_style); open findings "
-            "F-C01-uncertainty-text, F-C01-blank-name, F-C02-tuple-delimiters."),
+            "F-C01-uncertainty-text, F-C02-tuple-delimiters."),
     "C02": ("DESIGN.md 5/C02",
             "For every symbolic document within the bounds (text attributes and string values over all of Unicode, length <= 1-2; unbounded ints; pools of "
             "floats/dates/times; 2-tuples; every cardinality shape; every forest over 1 Document + 2 Sections + 2 Properties) ODMLWriter.to_string / DictWriter "
